@@ -48,36 +48,34 @@ Theorem C13_pairs_roundtrip :
 Proof. exact pairs_roundtrip. Qed.
 Print Assumptions C13_pairs_roundtrip.
 
-(* The whole request, for EVERY parameter map passing the code's size test, EVERY map iteration
-   order and EVERY body: a conforming responder receives role Responder, flags 0, exactly the
-   pairs (as a permutation of the map) and exactly the body bytes. *)
-Theorem C13_request_exact_partial :
+(* The whole request, for EVERY parameter map whose pairs each fit a single 65 500-byte record
+   (the property's own premise: the ENCODED pair, lengths included, is at most 65500 bytes), EVERY
+   map iteration order and EVERY body: a conforming responder receives role Responder, flags 0,
+   exactly the pairs (as a permutation of the map) and exactly the body bytes. *)
+Theorem C13_request_exact :
   forall ps order body w,
-  (forall kv, In kv ps -> 8 + len (fst kv) + len (snd kv) <= MAXW) ->
+  (forall kv, In kv ps -> fits kv = true) ->
   Permutation ps order ->
   request_wire order body = Ok w ->
   exists got, responder_receive w = Some (1, 0, got, body_bytes body) /\ Permutation ps got.
 Proof. exact request_roundtrip_any_order. Qed.
-Print Assumptions C13_request_exact_partial.
+Print Assumptions C13_request_exact.
 
 Example C13_request_exact_nonvacuous :
   exists w, request_wire [(bs "SCRIPT_NAME", bs "/x.php"); (bs "EMPTY", [])] (Some (bs "a=1")) = Ok w /\
             responder_receive w = Some (1, 0, [(bs "SCRIPT_NAME", bs "/x.php"); (bs "EMPTY", [])], bs "a=1").
 Proof. eexists. split; vm_compute; reflexivity. Qed.
 
-(* ... but the statement with the property's own premise ("fits a single 65 500-byte record") is
-   false of the code: writePairs tests 8+len(k)+len(v), so a 10-byte name with a 65485-byte value,
-   whose encoding is exactly 65500 bytes, arrives cut to 65482 bytes. *)
-Theorem C13_request_exact_fits_refuted :
-  exists k v, fits (k, v) = true /\
-    exists w v', request_wire [(k, v)] None = Ok w /\
-                 responder_receive w = Some (1, 0, [(k, v')], []) /\ len v' < len v.
-Proof. exact pairs_fit_refuted. Qed.
-Print Assumptions C13_request_exact_fits_refuted.
+(* the premise covers the pair that the unrepaired writePairs cut (it tested 8+len(k)+len(v)): a
+   10-byte name with a 65485-byte value, whose encoding is exactly 65500 bytes *)
+Example C13_request_exact_covers_boundary_pair :
+  fits (wit_k, wit_v) = true /\ MAXW < 8 + len wit_k + len wit_v.
+Proof. exact wit_fits. Qed.
 
-(* writing never panics as long as every name leaves room for the cut (len(k) <= 65492) *)
+(* writing a request never panics, whatever the sizes of names, values and body (a name that
+   leaves no room in a record gets an empty value) *)
 Theorem C13_request_no_panic :
-  forall ps body, (forall kv, In kv ps -> 8 + len (fst kv) <= MAXW) -> exists w, request_wire ps body = Ok w.
+  forall ps body, exists w, request_wire ps body = Ok w.
 Proof. exact request_wire_total. Qed.
 Print Assumptions C13_request_no_panic.
 
@@ -192,6 +190,13 @@ Theorem C13_ext_always_dispatched_refuted :
 Proof. exact ext_dispatch_case_sensitive_refuted. Qed.
 Print Assumptions C13_ext_always_dispatched_refuted.
 
+(* the dispatch decision itself never panics — EVERY rule list, file system and request path,
+   the empty path included (strings.HasSuffix(fpath, "/") replaced fpath[len(fpath)-1]) *)
+Theorem C13_dispatch_no_panic :
+  forall cs stat_ok open_ok rules i p, serve cs stat_ok open_ok rules i p <> OPanic.
+Proof. exact serve_no_panic. Qed.
+Print Assumptions C13_dispatch_no_panic.
+
 (* script name and path info are split at the FIRST occurrence of the configured split string
    (compared case-folded unless paths are case sensitive): DOCUMENT_URI ++ PATH_INFO is the script
    path, DOCUMENT_URI ends with the split string and no shorter prefix does *)
@@ -205,8 +210,9 @@ Theorem C13_split_env_spec :
 Proof. exact split_at_spec. Qed.
 Print Assumptions C13_split_env_spec.
 
-(* ... and once canSplit has accepted the path the split cannot go out of range (in the model's
-   ASCII case folding; Go's Unicode folding can change the length — finding F-C13-3) *)
+(* ... and once canSplit has accepted the path the split cannot go out of range: splitPos folds
+   ASCII letters only (repaired, F-C13-3), which is the model's [fold], so the offset found in the
+   folded path is an offset of the original path *)
 Theorem C13_split_total :
   forall cs r f, can_split cs r f = true -> exists d pi, split_at cs r f = Ok (d, pi).
 Proof. exact split_at_total. Qed.
